@@ -280,10 +280,11 @@ class CopyAnalysis:
                 if dotted(f) in ('attrs.evolve', 'attr.evolve', 'evolve', 'dataclasses.replace'):
                     return 'fresh', 'comprehension of evolve() copies (carried-over fields are checked per field)'
                 # a module-level helper that does nothing but construct (or copy) one object per call: `def _copy_vert(v): return Vert(...)`
-                if isinstance(f, ast.Name) and self.mod.has_func(f.id):
-                    hrets = [r.value for r in walk_no_nested(self.mod.func(f.id)) if isinstance(r, ast.Return)]
+                hq_ = f.id if isinstance(f, ast.Name) else (f'{self.cls}.{f.attr}' if isinstance(f, ast.Attribute) and dotted(f.value) in (selfname, 'cls', self.cls) else None)
+                if hq_ is not None and self.mod.has_func(hq_):
+                    hrets = [r.value for r in walk_no_nested(self.mod.func(hq_)) if isinstance(r, ast.Return)]
                     if hrets and all(isinstance(r, ast.Call) and ((isinstance(r.func, ast.Name) and r.func.id[:1].isupper()) or (isinstance(r.func, ast.Attribute) and r.func.attr == 'copy')) for r in hrets):
-                        return 'fresh', f'comprehension of objects constructed by {f.id}()'
+                        return 'fresh', f'comprehension of objects constructed by {hq_}()'
             return 'shallow', f'new container but its elements `{U(elt)}` are the source\'s own mutable objects'
         if isinstance(e, ast.Call):
             f = e.func
